@@ -196,11 +196,27 @@ def recover_only(R, env, prog, sites, RULE):
                     stack.append(norm(y[1]))
                 elif y[0] == "phi":
                     stack.extend(norm(z) for z in y[1])
+                elif y[0] == "call" and y[1] in ("std::ops::Index::index", "core::slice::get") and y[2]:
+                    stack.append(norm(y[2][0]))  # a sub-slice `&xs[..n]` is a version of xs
+                elif y[0] == "subslice":
+                    stack.append(norm(y[1]))
+                elif y[0] == "payload" and y[1][0] == "call" and y[1][1].split("::")[-1] in ("split_first", "split_last", "get", "first_chunk") and y[1][2]:
+                    stack.append(norm(y[1][2][0]))
+                elif y[0] == "field" and y[2] in ("0", "1"):
+                    stack.append(norm(y[1]))
             return out
         Pn = norm(elem[1][2][0])
         for t in trs:
             amts_ = [x_ for x_ in (t.get("amount_raw"), t["amount"]) if x_ is not None]  # (as written: the helper call with its argument)
             cands = [norm(a) for am_ in amts_ for s_ in subterms(am_) if s_[0] == "call" and prog.body(s_[1]) is not None for a in s_[2]]
+            # an in-line fold / sum / try_fold: the collection it runs over (iterator adaptors peeled)
+            for am_ in amts_:
+                for s_ in subterms(am_):
+                    if s_[0] == "call" and s_[1].split("::")[-1] in ("fold", "sum", "try_fold") and "Iterator" in s_[1] and s_[2]:
+                        r_ = s_[2][0]
+                        while r_[0] == "call" and "Iterator::" in r_[1] and r_[1].split("::")[-1] in ("map", "copied", "cloned", "iter", "into_iter", "by_ref") and r_[2]:
+                            r_ = r_[2][0]
+                        cands.append(norm(r_))
             if any(a == Pn for a in cands):
                 verdict = True
             else:
@@ -237,6 +253,7 @@ def recover_only(R, env, prog, sites, RULE):
             # fold spelling: the sum runs over the same collection the removal loop iterates, and the
             # removal is executed in every iteration of its loop
             same_coll = elem[1][0] == "call" and elem[1][1].endswith("Iterator::next") and norm(elem[1][2][0]) == norm(fcoll)
+            R.clear_undecided([RULE])  # (a comparison of two collection values: exact whatever the shape of the handler)
             R.ob(RULE, "recover:sum-of-removed", same_coll, "the total is folded over %s but the packets removed are those of %s" % (fmt(fcoll)[:80], fmt(elem)[:80]), loc=t["loc"], fn=hk)
             R.ob(RULE, "recover:sum-starts-at-zero", True, "fold starts at 0", loc=t["loc"], fn=hk)
             R.ob(RULE, "recover:resend-on-every-success-path", must_pass(h, t["root_bb"]) and shared.response_contains_call_at(h, t["root_bb"]), "recover can succeed without re-sending", loc=t["loc"], fn=hk)
